@@ -75,6 +75,14 @@ theorem fact_update_steps :
       "keyResolver.ResolvePublicKey", "findKeyByThumbprint", "didStore.Add"] ∧
     Facts.C09.updateFallsBackToLatest = true := by decide
 
+/-- the succeeded version only ever comes from the store (by prev, then latest; never the proposed document), the
+    fallback refuses on ANY error (an unknown DID cannot be updated), and the authorising keys are collected from the
+    controllers' `CapabilityInvocation` only (model: `currentVersion`, `capInvOf`) -/
+theorem fact_succeeded_version_and_key_collection :
+    Facts.C09.succeededVersionSources = ["n.didStore.Resolve", "n.didStore.Resolve"] ∧
+    Facts.C09.updateFallbackErrorCondition = "err != nil" ∧
+    Facts.C09.controllerKeysCollectedFrom = ["CapabilityInvocation"] := by decide
+
 /-- `ambassador.resolveControllers`: per-prev errors skipped, by-signing-time fallback when nothing was found -/
 theorem fact_ambassador_controller_resolution :
     Facts.C09.ambassadorSkippedErrors = ["ErrNotFound", "ErrNoActiveController"] ∧
@@ -544,6 +552,19 @@ theorem deactivated_controller_latest_witness : ¬ deactivated_controller_Stmt :
   have := h cfg0 dcStore (updateTx 410 [110, 100] "did:nuts:Dc" "c" 40) (docOf "d" ["d"] ["d"] ["did:nuts:Dc"]) (by decide)
   revert this
   decide
+
+-- second open finding (same root): the old key `c` of the deactivated controller `Dc` is also published by the
+-- self-controlled `De`; the update's prevs name `Dc`'s DEACTIVATION (300); kid `De#c` resolves through 120, no prev
+-- selects an active controller version, the signing-time fallback finds `Dc`'s pre-deactivation version: accepted.
+-- With `Dc`'s own kid the same transaction is refused (the key is not resolvable as of the deactivation).
+example : runAll [
+    (createTx 100 "c", docOf "c" ["c"] ["c"]),
+    (createTx 120 "e", docOf "e" ["e", "c"] ["e"]),
+    (createTx 110 "d", docOf "d" ["d"] [] ["did:nuts:Dc"]),
+    (updateTx 300 [100] "did:nuts:Dc" "c" 30, docOf "c" [] []),
+    (updateTx 400 [110, 300] "did:nuts:Dc" "c" 40, docOf "d" ["d"] ["d"] ["did:nuts:Dc"]),
+    (updateTx 410 [110, 300, 120] "did:nuts:De" "c" 40, docOf "d" ["d"] ["d"] ["did:nuts:Dc"])]
+  = ["ok", "ok", "ok", "ok", "err:sig:key:not-found", "ok"] := by decide
 
 -- a controller cycle: the callback answers too-deep (never loops), also with the verifier in front (the verifier's key
 -- resolver reads the store directly and does not look at controllers)
